@@ -27,7 +27,9 @@ HARNESS = os.path.join(ROOT, "harness")
 WORK = os.path.join(ROOT, "work")
 EVID = os.path.join(ROOT, "evidence")
 REPLAYS = os.path.join(ROOT, "replays")
-REPO = "/repo"
+# The crate under verification. VERIF_REPO points the whole pipeline (translator + harness build) at another
+# checkout (e.g. a scratch `git worktree` used to try the checks against deliberately broken code).
+REPO = os.environ.get("VERIF_REPO", "/repo")
 DRIVER = os.path.join(LEAN, ".lake", "build", "bin", "driver")
 
 ALLOWED_AXIOMS = {"propext", "Classical.choice", "Quot.sound"}
@@ -139,6 +141,19 @@ def audit(pid, cfg):
     return rc == 0, thms, out
 
 
+def summarize_axioms(thms):
+    """Axioms actually reported by the audit; the per-call `bv_decide` axioms are collapsed per theorem."""
+    plain, bv = set(), {}
+    for axs in thms.values():
+        for a in axs:
+            m = re.match(r"(.*)\._native\.bv_decide\.ax_\S+$", a)
+            if m:
+                bv.setdefault(m.group(1), set()).add(a)
+            else:
+                plain.add(a)
+    return sorted(plain) + [f"{t}._native.bv_decide.ax_* ({len(v)} bv_decide calls)" for t, v in sorted(bv.items())]
+
+
 def axiom_ok(ax, cfg):
     if ax in ALLOWED_AXIOMS:
         return True
@@ -149,16 +164,38 @@ def axiom_ok(ax, cfg):
 
 # --------------------------------------------------------------------------- harness side
 
+def harness_dir():
+    """Directory cargo is run in. With VERIF_REPO set, an alternate manifest under work/ that builds the same
+    sources (harness/src) against that checkout, with its own target directory."""
+    if REPO == "/repo":
+        return HARNESS
+    alt = os.path.join(WORK, "harness_alt")
+    os.makedirs(alt, exist_ok=True)
+    man = open(os.path.join(HARNESS, "Cargo.toml")).read()
+    if 'path = "/repo"' not in man:
+        raise RuntimeError("harness/Cargo.toml: expected the dependency `path = \"/repo\"`")
+    man = man.replace('path = "/repo"', f'path = "{REPO}"')
+    man += f'\n[[bin]]\nname = "harness"\npath = "{os.path.join(HARNESS, "src", "main.rs")}"\n'
+    dst = os.path.join(alt, "Cargo.toml")
+    if not os.path.exists(dst) or open(dst).read() != man:
+        open(dst, "w").write(man)
+    lock = os.path.join(HARNESS, "Cargo.lock")
+    alt_lock = os.path.join(alt, "Cargo.lock")
+    if os.path.exists(lock) and (not os.path.exists(alt_lock) or open(alt_lock).read() != open(lock).read()):
+        open(alt_lock, "w").write(open(lock).read())
+    return alt
+
+
 def cargo_build(profile):
     cmd = ["cargo", "+nightly", "build", "--offline"]
     if profile == "release":
         cmd.append("--release")
-    rc, out = sh(cmd, cwd=HARNESS, timeout=3600)
+    rc, out = sh(cmd, cwd=harness_dir(), timeout=3600)
     return rc == 0, out
 
 
 def harness_bin(profile):
-    return os.path.join(HARNESS, "target", profile, "harness")
+    return os.path.join(harness_dir(), "target", profile, "harness")
 
 
 def run_pipeline(pid, profile, tier, seed):
@@ -188,7 +225,11 @@ def run_pipeline(pid, profile, tier, seed):
             res.setdefault(tag + "_count", 0)
             res[tag + "_count"] += 1
         elif tag == "E" and line[1:2] == " ":
-            if len(res["E"]) < 40:
+            # keep a spread of samples: at most 3 per op family (`const:T:N` lines form one family)
+            fam = line[2:].split(" ", 1)[0].split(":", 1)[0]
+            seen = res.setdefault("_E_fam", {})
+            if seen.get(fam, 0) < 3 and len(res["E"]) < 90:
+                seen[fam] = seen.get(fam, 0) + 1
                 res["E"].append(line[2:])
         elif tag == "H" and line[1:2] == " ":
             k, v = line[2:].rsplit(" ", 1)
@@ -200,6 +241,55 @@ def run_pipeline(pid, profile, tier, seed):
             res["stats"] = json.load(open(stats_path))
         except Exception as ex:  # noqa: BLE001
             res["stats_error"] = str(ex)
+    return res
+
+
+# --------------------------------------------------------------------------- per-property hooks
+
+def run_framework_checks(cfg):
+    """cfg["framework_checks"]: scripts (relative to the repository root of the checks) that validate the
+    *specification side* against a second source. Non-zero exit = framework error, never a violation."""
+    errs = []
+    for script in cfg.get("framework_checks", []):
+        rc, out = sh([sys.executable, os.path.join(ROOT, script)], cwd=ROOT, timeout=600)
+        if rc != 0:
+            errs.append(f"{script} failed (rc={rc}): " + out.strip()[-1500:])
+    return errs
+
+
+def run_eval_script(cfg):
+    """cfg["eval_script"]: a Lean file (relative to lean/) with a `main`, run with `lake env lean --run` after
+    building cfg["eval_modules"] (only spec + generated modules, so it still runs when a theorem broke).
+    It evaluates the property's spec oracle directly on the source-derived data and prints
+        MISMATCH <text>     a concrete failing input (becomes the replay of a VIOLATION)
+        UNCOVERED <text>    an item the spec does not cover (evidence only, no alarm)
+        COUNTS k=v ...      measured counts (evidence)
+    Returns dict(ok, mismatches, uncovered, counts, output)."""
+    res = {"ok": True, "mismatches": [], "uncovered": [], "counts": {}, "output": ""}
+    script = cfg.get("eval_script")
+    if not script:
+        return None
+    ok, out = lake_build(list(cfg.get("eval_modules", [])))
+    if not ok:
+        res["ok"] = False
+        res["output"] = out[-2000:]
+        return res
+    rc, out = sh(["lake", "env", "lean", "--run", script], cwd=LEAN, timeout=1800)
+    res["output"] = out[-2000:]
+    if rc != 0:
+        res["ok"] = False
+        return res
+    for line in out.split("\n"):
+        if line.startswith("MISMATCH "):
+            res["mismatches"].append(line[len("MISMATCH "):].strip())
+        elif line.startswith("UNCOVERED "):
+            res["uncovered"].append(line[len("UNCOVERED "):].strip())
+        elif line.startswith("COUNTS "):
+            for kv in line.split()[1:]:
+                k, _, v = kv.partition("=")
+                res["counts"][k] = int(v) if v.isdigit() else v
+    if not res["counts"]:
+        res["ok"] = False
     return res
 
 
@@ -251,6 +341,23 @@ def check(pid, tier, seed):
     if not ok:
         broken.append({"what": "translator", "detail": msg[-3000:]})
 
+    # 1b. specification-side cross-checks and the property's eval script (spec oracle on source-derived data)
+    framework_errors += run_framework_checks(cfg)
+    known = load_known(pid)
+    ev_res = run_eval_script(cfg)
+    if ev_res is not None:
+        if not ev_res["ok"]:
+            if ok:
+                framework_errors.append("eval script failed: " + ev_res["output"])
+            # (with a failed translator the generated module may be missing: already reported as broken tie)
+        for mm in ev_res["mismatches"]:
+            text = f"eval {mm}"
+            hit = next((what for rx, what in known if rx.search(text)), None)
+            if hit:
+                known_hits[hit] = known_hits.get(hit, 0) + 1
+            else:
+                failing.append(text)
+
     # 2. Lean build
     targets = list(cfg["modules"]) + ["driver"]
     ok, out = lake_build(targets)
@@ -283,7 +390,6 @@ def check(pid, tier, seed):
 
     # 4./5. harness
     runs = []
-    known = load_known(pid)
     if not cfg.get("no_harness") and not framework_errors:
         for profile in cfg.get("profiles", ["debug"]):
             ok, out = cargo_build(profile)
@@ -328,7 +434,9 @@ def check(pid, tier, seed):
         path = write_replay(pid, "failing-input", {
             "tier": tier, "seed": seed, "cases": failing[:50],
             "note": "each case: 'profile=<cargo profile> <lineno> <op> <args> => <implementation output> :: <model output>'; "
-                    "the spec oracle of the property rejects the implementation output",
+                    "the spec oracle of the property rejects the implementation output. "
+                    "'eval <row>' cases come from the property's eval script: the spec oracle evaluated on data "
+                    "re-extracted from the source text (generated=<value in the source> table=<value the spec requires>)",
             "broken": broken})
         violation_line = f"VIOLATION property={pid} replay={path}"
     elif broken:
@@ -344,12 +452,13 @@ def check(pid, tier, seed):
     # evidence
     obligations = len(thms)
     discharged = len([t for t in thms if t not in bad_axioms]) if lean_ok else 0
-    axioms_seen = sorted(set(a for axs in thms.values() for a in axs))
+    axioms_seen = summarize_axioms(thms)
     evaluations = sum(int(r["summary"]["lines"]) for r in runs if r["summary"])
     dn = sum((r["stats"] or {}).get("distinct_nontrivial", 0) for r in runs)
     samples = []
     for r in runs:
-        samples += [f"[{r['profile']}] {l}" for l in r["E"][:6]]
+        step = max(1, len(r["E"]) // 8)
+        samples += [f"[{r['profile']}] {l}" for l in r["E"][::step][:8]]
     samples += [f"theorem {t}" for t in sorted(thms)[:8]]
     coverage = {
         "obligations": max(obligations, 1) if lean_ok else max(obligations, 1),
@@ -372,6 +481,12 @@ def check(pid, tier, seed):
         "explanation": cfg.get("explanation", ""),
         "broken": broken,
     }
+    if ev_res is not None:
+        coverage["uncovered"] = ev_res["uncovered"]
+        coverage["spec_eval_counts"] = ev_res["counts"]
+        coverage["spec_eval_mismatches"] = ev_res["mismatches"]
+        if cfg.get("uncovered_note"):
+            coverage["uncovered_note"] = cfg["uncovered_note"]
     ev = {
         "property_id": pid, "tier": tier, "seed": seed, "level": "proof",
         "coverage": coverage,
@@ -388,6 +503,16 @@ def check(pid, tier, seed):
 
 
 def setup():
+    # specification-side cross-checks (e.g. architectural table vs Linux UAPI headers): a disagreement is a
+    # framework error, not a verdict about the code
+    spec_rc = 0
+    for pid, cfg in sorted(PROPS.items()):
+        for e in run_framework_checks(cfg):
+            print(f"FRAMEWORK-ERROR: [{pid}] {e}")
+            spec_rc = 2
+    if spec_rc:
+        return spec_rc
+    print("specification cross-checks: ok")
     ok, msg = run_translator()
     print("translator:", "ok" if ok else "FAILED\n" + msg)
     ok1, out = lake_build(["X86Model", "driver"])
